@@ -25,6 +25,7 @@ type Job struct {
 	MaxPaths int
 	MaxSteps int64
 	MaxConc  int      // bound on the values a symbolic index is concretised to (0: 4)
+	Choices  []int    // forced values of the first vp.Choice calls (splits one history space over several jobs)
 	RawTerms bool     // no canonicalising rewrites: every obligation goes to the solver as written
 	Covers   []string // cover points that must be reached by some path (vacuity guard)
 	Note     string
@@ -163,6 +164,7 @@ func (p *Pool) runJob(j *Job, solverp **sym.Solver) (r *JobResult) {
 		st.Params = j.Params
 		st.Policy = j.Policy
 		st.MaxConc = j.MaxConc
+		st.ForcedChoices = j.Choices
 		if p.Verbose {
 			st.ForkSites = forkSites
 		}
